@@ -568,6 +568,7 @@ func init() {
 			// v1 digests carry no type tags at all: an ordered Equals that decides by digest calls [[]] and [{}] equal while the positional diff reports the difference
 			safely(r, "ruleHashEq", func() { ruleHashEq(w, r, newNodeTypes(w, lib, "lib")) })
 			safely(r, "ruleHashZero", func() { ruleHashZero(w, r, newNodeTypes(w, lib, "lib")) })
+			safely(r, "ruleHunkRaw", func() { ruleHunkRaw(w, r, lib, "lib", "OldValues", "NewValues") })
 			// the v1 library as reached through the top-level binary with -v2=false: -p prints the patched document
 			r.Only(func(o Ob) bool { return o.Rule == "R-CLI/R" && strings.HasPrefix(o.Key, "top.") }, func(sub *Report) { safely(sub, "runCLI", func() { runCLI(w, sub, "plumbing") }) })
 			safely(r, "ruleScanErr", func() { ruleScanErr(w, r, lib, "lib") })
